@@ -101,6 +101,7 @@ class State:
         self.nalloc = 0
         self.ghost = {}        # name -> V (ghost variables of the function under proof)
         self.undecided = None  # reason string when the path met an unsupported construct
+        self.defs = set()      # ids of definitional facts (about fresh constants): never guarded when states are merged
 
     def copy(self):
         s = State()
@@ -114,6 +115,7 @@ class State:
         s.front = self.front
         s.ghost = dict(self.ghost)
         s.undecided = self.undecided
+        s.defs = set(self.defs)
         return s
 
     def field(self, name):
@@ -133,8 +135,10 @@ class State:
         self.heap[name] = z3.Store(self.field(name), obj_r, val)
         self.writes.append((name, obj_r))
 
-    def assume(self, f):
+    def assume(self, f, definitional=False):
         self.pc.append(f)
+        if definitional:
+            self.defs.add(f.get_id())
 
 
 class Res:
